@@ -222,7 +222,8 @@ def _common_hypernyms(
 def _shortest_hyp_paths(
         synset: 'Synset', other: 'Synset', simulate_root: bool
 ) -> dict[tuple['Synset', int], list['Synset']]:
-    if synset == other:
+    # inferred synsets all compare as equal, so also compare their ILIs
+    if synset == other and synset._ili == other._ili:
         return {(synset, 0): []}
 
     from_self = _hypernym_paths(synset, simulate_root, True)
